@@ -201,6 +201,86 @@ def collect(prop, repo):
                 raise rxprep.AnchorLost('StreamController methods %s' % sorted(missing))
         ob('stream_controller.encapsulated', 'src/internals/stream_controller.rs', sctl_shape)
 
+    if prop == 'C03':
+        # probes for two known findings (DESIGN 5, D5): both operators are built on zip, whose pairing semantics differ from theirs
+        def built_on_zip(rel, st, what):
+            def f():
+                src = _read(repo, rel)
+                toks = rxprep.strip_test_mods(tree(src))
+                fields = struct_fields(toks, st, src)
+                if fields is None:
+                    raise rxprep.AnchorLost('struct %s' % st)
+                if any('Zip' in ty for _f, _p, ty in fields):
+                    return 'failed', what
+            return f
+        ob('combine_latest.definition', 'src/operators/combine_latest.rs', built_on_zip(
+            'src/operators/combine_latest.rs', 'CombineLatest',
+            'combine_latest is zip + map: it emits only when EVERY input has a new item, not "on each item the latest of every source"'))
+        ob('sequence_equal.definition', 'src/operators/sequence_equal.rs', built_on_zip(
+            'src/operators/sequence_equal.rs', 'SequenceEqual',
+            'sequence_equal is built on zip, which stops at the shortest input: sequences of different length that agree on the common prefix are reported equal'))
+
+    if prop == 'C04':
+        # every error handler handed to new_observer forwards the error it RECEIVED (its own parameter, possibly cloned) whenever it
+        # calls sink_error: a handler that forwards some other RxError changes the payload (C04).  Decided on the token tree for all
+        # operator files, including those whose handlers are not extractable.
+        for path in sorted(glob.glob(os.path.join(repo, 'src', 'operators', '*.rs'))):
+            name = os.path.splitext(os.path.basename(path))[0]
+            rel = os.path.relpath(path, repo)
+            def h(path=path):
+                src = open(path).read()
+                toks = rxprep.strip_test_mods(tree(src))
+                bad = []
+                for parent, idx, g in rxprep.find_calls(toks, 'new_observer'):
+                    parts = rxprep.split_commas(g.kids)
+                    if len(parts) != 3:
+                        continue
+                    cl = rxprep.parse_closure(parts[1], src)
+                    if cl is None or len(cl.params) < 2:
+                        continue
+                    pname = cl.params[1][0]
+                    # sink_error calls directly in this handler (not inside a nested new_observer)
+                    def visit(ts):
+                        for k, t in enumerate(ts):
+                            if t.kind == 'group':
+                                if k > 0 and ts[k - 1].is_id('new_observer'):
+                                    continue
+                                visit(t.kids)
+                            if t.is_id('sink_error') and k + 1 < len(ts) and ts[k + 1].is_group('('):
+                                arg = re.sub(r'\s+', '', src[ts[k + 1].start + 1:ts[k + 1].end - 1])
+                                if pname == '_' or arg not in (pname, pname + '.clone()'):
+                                    bad.append('sink_error(%s) in an error handler whose parameter is `%s`' % (arg, pname))
+                    visit(cl.body)
+                if bad:
+                    return 'failed', 'an error handler forwards something other than the error it received: ' + '; '.join(bad)
+            ob('%s.error_forwards_received_payload' % name, rel, h)
+
+    if prop in ('C10', 'C13'):
+        # per-subscription state of the subjects' observable(): every subscribe() through the SAME Observable handle must get its
+        # own inner-subscription slot (same frame obligation as C14, applied to `fn observable`)
+        for rel in ('src/subjects/subject.rs', 'src/subjects/behavior_subject.rs', 'src/subjects/replay_subject.rs'):
+            def f(rel=rel):
+                src = _read(repo, rel)
+                try:
+                    sk = rxprep.analyse(src, 'observable', None)
+                except rxprep.AnchorLost as e:
+                    return 'undecided', 'skeleton: %s' % e
+                if sk.outer_cells:
+                    return 'failed', 'observable() creates state cell(s) %s outside the closure passed to Observable::create: shared by every subscription made through the same Observable value' % sorted(sk.outer_cells)
+            ob('%s.observable.per_subscription_state' % os.path.basename(rel)[:-3], rel, f)
+    if prop == 'C13':
+        for rel, st in (('src/operators/publish.rs', 'Publish'), ('src/operators/ref_count.rs', 'RefCount'), ('src/operators/replay.rs', 'Replay')):
+            def g(rel=rel, st=st):
+                src = _read(repo, rel)
+                toks = rxprep.strip_test_mods(tree(src))
+                fields = struct_fields(toks, st, src)
+                if fields is None:
+                    raise rxprep.AnchorLost('struct %s' % st)
+                for f_, _p, ty in fields:
+                    if re.search(r'\bObserver<', re.sub(r'\s+', '', ty)):
+                        return 'failed', '%s caches an Observer in field `%s`: every connect()/source subscription shares its callback slots, so ending one connection kills the next' % (st, f_)
+            ob('%s.no_cached_observer' % st.lower(), rel, g)
+
     if prop == 'C14':
         for path in sorted(glob.glob(os.path.join(repo, 'src', 'operators', '*.rs'))):
             name = os.path.splitext(os.path.basename(path))[0]
@@ -209,7 +289,7 @@ def collect(prop, repo):
             rel = os.path.relpath(path, repo)
             ob('%s.per_subscription_state' % name, rel, lambda path=path, name=name: c14_frame(path, name))
 
-    if prop in ('C01', 'C05', 'C06', 'C17', 'C14'):
+    if prop in ('C01', 'C05', 'C06', 'C17', 'C14', 'C10', 'C13'):
         def a7():
             bad = []
             for path in glob.glob(os.path.join(repo, 'src', '**', '*.rs'), recursive=True):
